@@ -75,10 +75,10 @@ def gen_hist_cases(tier):
     # discovery variants x key types (mixed) x engine-id lengths
     kts = [(0, 0), (1, 1), (2, 2), (0, 1), (0, 2), (1, 0), (2, 0), (1, 2), (2, 1)]
     tail = [["get", 0, "sys"], ["reply", 0, "ok", 3], ["get_many", 0, "pair"], ["reply", 0, "ok", 5], ["refresh", 0], ["reply", 0, "report", 1], ["getbulk", 0, "sys", 3]]
-    for (a, p), (kt, pkt), el, var in itertools.product(((0, 0), (1, 0), (2, 0), (1, 1), (1, 2), (2, 1), (2, 2)), kts, (5, 12, 32), (0, 1, 2, 3, 100, 101, 200, 203)):
+    for (a, p), (kt, pkt), el, var in itertools.product(((0, 0), (1, 0), (2, 0), (1, 1), (1, 2), (2, 1), (2, 2)), kts, (5, 12, 32), (0, 1, 2, 3, 100, 101, 200, 203, 300, 302)):
         if (not p and kt != pkt) or (not a and (kt, pkt) != (0, 0)):
             continue
-        if not thorough and (el == 12 or var in (1, 3, 101, 203)) and (kt, pkt) not in ((0, 0), (0, 1)):
+        if not thorough and (el == 12 or var in (1, 3, 101, 203, 302)) and (kt, pkt) not in ((0, 0), (0, 1)):
             continue
         c = Cfg("v3", auth=a, priv=p, key_type=kt, priv_key_type=pkt, discover=True, engine_id=bytes(range(0x80, 0x80 + el)))
         yield {"class": "discovery", "cfgs": [c.describe()], "history": [["discover", 0, var]] + tail}
@@ -96,7 +96,8 @@ def gen_hist_cases(tier):
 class UsmAgent:
     """Scripted authoritative engine: discovery Report, time-window Report for probes, responses otherwise."""
 
-    def __init__(self, cfg, clocks, lose_first=False):
+    def __init__(self, cfg, clocks, lose_first=False, ctx_other=False):
+        self.ctx_other = ctx_other
         self.cfg = cfg
         self.clocks = clocks
         self.n = 0
@@ -117,7 +118,8 @@ class UsmAgent:
         if not r.engine_id:
             anon = Cfg("v3", user="", engine_id=cfg.engine_id)
             vb = [((1, 3, 6, 1, 6, 3, 15, 1, 1, 4, 0), values.v_unsigned("counter32", 1).tlv)]
-            return [drivers.reply_for(anon, _bare(r), vb, pdu_tag=rb.PDU_REPORT, engine_id=cfg.engine_id, boots=clock[0], time=clock[1], flags=0, user="")]
+            extra = {"ctx_engine_id": b"\x80\x00\x1f\x88\x04context"} if self.ctx_other else {}
+            return [drivers.reply_for(anon, _bare(r), vb, pdu_tag=rb.PDU_REPORT, engine_id=cfg.engine_id, boots=clock[0], time=clock[1], flags=0, user="", **extra)]
         try:
             req = drivers.open_request(cfg, data, strict=False, check_mac=False)
         except (rb.StrictError, drivers.V3Error, ValueError):
@@ -160,7 +162,7 @@ def expected_calls(script):
 
 def run_public(case, clauses=None):
     cfg = Cfg.from_desc(case["cfg"])
-    agent = UsmAgent(cfg, CLOCKS[case["clock"]], lose_first=case.get("lose_first", False))
+    agent = UsmAgent(cfg, CLOCKS[case["clock"]], lose_first=case.get("lose_first", False), ctx_other=case.get("ctx_other", False))
     script = case["script"]
     problems = []
     tmo = 1.0 if case.get("lose_first") else 4.0
@@ -343,6 +345,7 @@ def gen_public(tier):
         for a, p in ((1, 0), (2, 2)):
             cfg = Cfg("v3", auth=a, priv=p, discover=True)
             yield {"driver": driver, "cfg": cfg.describe(), "clock": 1, "script": ["get", "get"], "lose_first": True}
+            yield {"driver": driver, "cfg": cfg.describe(), "clock": 0, "script": ["get", "refresh", "get"], "ctx_other": True}
         # one User object shared by sessions to agents with different engine ids
         for (a, p), (kt, pkt) in itertools.product(((2, 0), (1, 1), (2, 2)), ((0, 0), (1, 1), (0, 1), (1, 0))):
             if not p and kt != pkt:
@@ -366,7 +369,7 @@ def run(tier):
     rec = common.Recorder(PROPERTY, tier, LEVEL, MODULE)
     rec.rule = (
         "(a) raw sockets: all step sequences to depth %d over {get, get_many, getbulk, refresh, replies with 5 clock values (forwards, backwards, 2^31-1, 0), Report, foreign engine id "
-        "(response / Report), wrong user / msgID / request-id, time-out} for K7 x {engine id given, discovered}; discovery variants (clean, stray Report first, lost probe) x 9 key-type pairs x "
+        "(response / Report), wrong user / msgID / request-id, time-out} for K7 x {engine id given, discovered}; discovery variants (clean, stray Report first, lost probe, Report whose contextEngineID differs from the authoritative engine id) x 9 key-type pairs x "
         "engine-id lengths; (b) sync and async public clients: context-manager entry + scripts x 3 agent clock sequences (incl. reboot) x K7 x key types x {given, discovered}, lost first probe; one User object shared by consecutive sessions to agents with different engine ids. "
         "evaluations = requests judged against the reference USM session model." % (4 if tier == "thorough" else 3)
     )
